@@ -26,11 +26,11 @@ theorem length_stableSort (l : List (Centroid α)) : (stableSort l).length = l.l
 theorem length_mergeSeq (s : St α) (tmp : List (Centroid α)) : (mergeSeq s tmp).length = tmp.length + s.cs.length := by
   unfold mergeSeq; split <;> simp [length_stableSort]
 
-theorem cluster_length_two (sc : Scale δ) (kc cwD : δ) (cur x : Centroid α) (xs : List (Centroid α)) (wsf : δ) :
-    2 ≤ (cluster sc kc cwD true cur wsf (x :: xs)).length := by
+theorem cluster_length_two (safe : Bool) (sc : Scale δ) (kc cwD : δ) (cur x : Centroid α) (xs : List (Centroid α)) (wsf : δ) :
+    2 ≤ (cluster safe sc kc cwD true cur wsf (x :: xs)).length := by
   simp only [cluster, Bool.not_true, Bool.false_and, Bool.false_eq_true, if_false, List.length_cons]
-  have := cluster_ne_nil sc kc cwD xs false x (wsf +. Num.ofNat cur.weight)
-  have : 0 < (cluster sc kc cwD false x (wsf +. Num.ofNat cur.weight) xs).length := List.length_pos_iff.2 this
+  have := cluster_ne_nil safe sc kc cwD xs false x (wsf +. Num.ofNat cur.weight)
+  have : 0 < (cluster safe sc kc cwD false x (wsf +. Num.ofNat cur.weight) xs).length := List.length_pos_iff.2 this
   omega
 
 theorem mergeOut_length (sc : Scale δ) (tun : Tun) (s : St α) (weight : Nat) (x : Centroid α) (xs : List (Centroid α)) :
@@ -40,7 +40,7 @@ theorem mergeOut_length (sc : Scale δ) (tun : Tun) (s : St α) (weight : Nat) (
   · intro h; subst h; split <;> simp [cluster]
   · intro h
     obtain ⟨y, ys, rfl⟩ := List.exists_cons_of_ne_nil h
-    have := cluster_length_two sc (Num.ofNat (tun.comprMul * s.k) : δ) (Num.ofNat (s.cw + weight)) x y ys (Num.ofNat 0)
+    have := cluster_length_two tun.caddSafe sc (Num.ofNat (tun.comprMul * s.k) : δ) (Num.ofNat (s.cw + weight)) x y ys (Num.ofNat 0)
     split <;> simp only [List.length_reverse] <;> exact this
 
 /-- after a real compress the digest has one centroid iff it held one value -/
